@@ -5,6 +5,7 @@ P = 'C02'
 def register(R):
   R.bounded_checks[P] = [
       ('bounded_groupby', 'empty stream and 1/3/6 rows in every split into <=3 batches x every set of <=2 slicers (single feature, cross, fan-out, within-values) x one/two stacked/unsliced-first aggregates vs brute-force group-by: no key invented or dropped, values equal, unsliced result independent of the slicers'),
+      ('bounded_sharded_merge', 'shard states merged = whole run (also per slice); strict state count errors'),
       ('bounded_masks', 'tree.apply_mask on all boolean masks (flat, nested with empty inner lists, dict), filter and replace mode; intra-example slice masks through the pipeline'),
   ]
   R.trusted[P] = ['bounded: small-scope hypothesis (<=6 rows, <=3 batches, <=2 slicers)', 'brute-force group-by oracle in plain Python']
